@@ -151,7 +151,9 @@ func SignJWT(ctx context.Context, key crypto.Signer, alg jwa.SignatureAlgorithm,
 
 // JWTKidAlg parses a JWT, does not validate it and returns the 'kid' and 'alg' headers
 func JWTKidAlg(tokenString string) (string, jwa.SignatureAlgorithm, error) {
-	j, err := jws.ParseString(tokenString)
+	// A JWT is always in the JWS compact serialization (RFC 7519). The JSON serialization must not be accepted: jwt.Parse reads
+	// the claims of a JSON object that has both JWS members and claim members from the (unsigned) claim members.
+	j, err := jws.Parse([]byte(tokenString), jws.WithCompact())
 	if err != nil {
 		return "", "", err
 	}
